@@ -177,3 +177,15 @@ Fixpoint row_eval (c : ctx) (data : list dentry) : ctx * R xerr (list dentry) :=
   end.
 
 End EVAL.
+
+(* what the parser guarantees about every expression it builds: every call names a function
+   of FUNC_TABLE with the right number of arguments (so panic sites 10 and 11 are unreachable) *)
+Fixpoint wf_expr (e : expr) : Prop :=
+  match e with
+  | ENum _ | EVar _ => True
+  | EBin _ l r => wf_expr l /\ wf_expr r
+  | EUn _ a => wf_expr a
+  | EFunc f args =>
+      func_arity f = Some (Nlen args) /\
+      (fix go (l : list expr) : Prop := match l with [] => True | x :: r => wf_expr x /\ go r end) args
+  end.
